@@ -14,12 +14,12 @@ Proof.
   revert u; induction s as [|b t IH]; simpl; intros u H; [reflexivity|].
   destruct (digit_of_byte b) as [d|] eqn:Eb; [|discriminate].
   destruct (uint_of_bytes t) as [u'|] eqn:Et; [|discriminate].
-  unfold all_digits in IH. rewrite (digit_of_byte_is_digit _ _ Eb), (IH _ eq_refl). reflexivity.
+  unfold all_digits in *. simpl. rewrite (digit_of_byte_is_digit _ _ Eb), (IH _ eq_refl). reflexivity.
 Qed.
 
 Lemma digits_uint_of_bytes s : all_digits s = true -> exists u, uint_of_bytes s = Some u.
 Proof.
-  induction s as [|b t IH]; simpl; intros H; [eauto|].
+  unfold all_digits. induction s as [|b t IH]; simpl; intros H; [eauto|].
   apply andb_true_iff in H as [Hb Ht]. destruct (IH Ht) as [u Eu]. rewrite Eu.
   unfold is_digit in Hb. destruct (digit_of_byte b); [eauto | discriminate].
 Qed.
@@ -78,14 +78,13 @@ Qed.
 Lemma wf_ident_unorm x u : wf_ident x = true -> uint_of_bytes x = Some u -> unorm u = u.
 Proof.
   intros W E. pose proof (uint_of_bytes_digits _ _ E) as D.
-  destruct x as [|b t]; [discriminate|]. simpl in W. rewrite D in W. simpl in W.
+  destruct x as [|b t]; [discriminate|]. unfold wf_ident in W. rewrite D in W. simpl in W.
   simpl in E. destruct (digit_of_byte b) as [d|] eqn:Eb; [|discriminate].
   destruct (uint_of_bytes t) as [u'|] eqn:Et; [|discriminate]. injection E as <-.
   destruct (beqb b c_0) eqn:E0.
   - apply beqb_eq in E0; subst b. destruct t; [|discriminate].
     simpl in Et. injection Et as <-. simpl in Eb. injection Eb as <-. reflexivity.
-  - destruct b; simpl in Eb; try discriminate; injection Eb as <-; try reflexivity.
-    discriminate.
+  - destruct b; simpl in Eb; try discriminate; injection Eb as <-; reflexivity.
 Qed.
 
 Lemma parse_uint_inj x y n :
